@@ -42,6 +42,9 @@ var c01Inline = []string{
 	"[]", "{}", "[a]", "[[a]]", "[[[[a]]]]", "{a: b}", "{a: {b: c}}", "[{a: b}]", "{a: [b]}", "[~]", "[1, true, ~, 1.5]", "{? [a] : b}", "{1: a}", "{true: a}", "{~: a}", "{a: ~}", "{A: 1, a: 2}", "[a, [b], {c: d}]",
 	"&newanc v", "*sanc", "*manc", "*lanc", "[*sanc, *lanc]", "{<<: *manc}", "{<<: [*manc, *manc]}", "{<<: *sanc}", "{k: *manc}", "&self [*self]", "*undefined",
 	"'${{ fromJSON(' ) }}'", "'${{ github.event.*.body }}'", "'${{ matrix.*.* }}'",
+	// text of several bytes per character before a broken / undefined expression: positions inside
+	// a scalar are byte offsets, the snippet printer meets them on a line with fewer characters
+	"'日本語のなまえ ${{ foo( }}'", "'ééééééééé ${{ nosuch }}'", "日本語のなまえの長い名前 ${{ nosuch.x }}", "'😀😀😀😀 ${{ a + }}'", "'${{ nosuch }} 日本語 ${{ b + }}'",
 }
 
 // c01Block are fragments that replace the rest of a `key: value` line by block-style content.
